@@ -9,7 +9,23 @@ def outBuilt : Except String Str → String
   | .ok u => "U " ++ hexStr u
   | .error e => "EXC:" ++ e
 
+/-- request action `B<hex endpoint>:<values>:<method|~>:<match method|~>:<force_external>` -/
+def predictBuild (m : RMap) (a : Adapter) (act : String) : String :=
+  match (act.drop 1).toString.splitOn ":" with
+  | [ep, vals, method, mm, fe] =>
+    match unhexStr ep, valuesArg vals, optArg unhexStr method, optArg unhexStr mm, boolArg fe with
+    | some ep, some vals, some method, some mm, some fe =>
+      let (b1, o, b2) := roundtrip m a ep vals method mm fe
+      outBuilt b1 ++ " / " ++ outOpt outOutcome o ++ " / " ++ outOpt outBuilt b2
+    | _, _, _, _, _ => badArgs
+  | _ => badArgs
+
 def handle : Handler
+  | "route.sched", [m, a, acts, grants] =>
+    match mapArg m, adapterArg a with
+    | some (some m), some a => some (Wz.Driver.C03.schedCmd (predictBuild m a) m.rules.length acts grants)
+    | some none, _ => some "UNSUPPORTED"
+    | _, _ => some badArgs
   | "route.roundtrip", [m, a, ep, vals, method, mm, fe] =>
     match mapArg m, adapterArg a, unhexStr ep, valuesArg vals, optArg unhexStr method, optArg unhexStr mm, boolArg fe with
     | some (some m), some a, some ep, some vals, some method, some mm, some fe =>
